@@ -83,14 +83,38 @@ MetaImage(c) ==   \* prefix bits 2 (4x4 tiles); entropy image pixel <<a, r, g, b
      \o Cat([i \in 1..(mw * mh) |-> CodeMSB(px(i), 8) \o CodeMSB(0, 8) \o CodeMSB(0, 8) \o CodeMSB(255, 8)])
 ToBytes(bits) == LET nb == (Len(bits) + 7) \div 8 IN
   [k \in 1..nb |-> FoldLeft(LAMBDA acc, i : acc + (IF 8 * (k - 1) + i <= Len(bits) THEN bits[8 * (k - 1) + i] ELSE 0) * (2 ^ (i - 1)), 0, <<1,2,3,4,5,6,7,8>>)]
-Stream(c) ==
-  LET n == 280 + (IF c.cb > 0 THEN 2 ^ c.cb ELSE 0)
-      tk == Tokens(c)
-  IN ToBytes(NumLSB(47, 8) \o NumLSB(c.w - 1, 14) \o NumLSB(H - 1, 14) \o <<1>> \o NumLSB(0, 3)
-             \o <<0>>                                                       \* no transform
-             \o (IF c.cb > 0 THEN <<1>> \o NumLSB(c.cb, 4) ELSE <<0>>)
-             \o (IF c.meta THEN <<1>> \o MetaImage(c) \o Group(n, FALSE) \o Group(n, TRUE) ELSE <<0>> \o Group(n, FALSE))
-             \o tk.bits)
+\* the stream as labelled segments (name, bits): the field map for bit-level fault injection (C05) is read off it
+SegsG(w, h, cb, meta, precField, mw, nmeta, tokbits) ==
+  LET n == 280 + (IF cb > 0 THEN 2 ^ cb ELSE 0)
+  IN << <<"signature", NumLSB(47, 8)>>, <<"width-1", NumLSB(w - 1, 14)>>, <<"height-1", NumLSB(h - 1, 14)>>, <<"alpha-hint", <<1>> >>,
+        <<"version", NumLSB(0, 3)>>, <<"transform-present", <<0>> >> >>
+     \o (IF cb > 0 THEN << <<"cache-present", <<1>> >>, <<"cache-bits", NumLSB(cb, 4)>> >> ELSE << <<"cache-present", <<0>> >> >>)
+     \o (IF meta
+         THEN << <<"meta-present", <<1>> >>, <<"meta-prefix-bits", NumLSB(precField, 3)>>, <<"meta-image-cache-present", <<0>> >>,
+                 <<"meta-image-codes", Code8Green \o Code8 \o Code8 \o Code8 \o SimpleOne0>> >>
+              \o [i \in 1..nmeta |-> <<"meta-pixel", CodeMSB((((i - 1) % mw) + ((i - 1) \div mw)) % 2, 8) \o CodeMSB(0, 8) \o CodeMSB(0, 8) \o CodeMSB(255, 8)>>]
+              \o << <<"group-1-green-code", Code89(n)>>, <<"group-1-red-code", Code8>>, <<"group-1-blue-code", Code8>>, <<"group-1-alpha-code", Code8>>, <<"group-1-dist-code", Code5Dist>>,
+                    <<"group-2-green-code", Code89(n)>>, <<"group-2-red-code", Code8>>, <<"group-2-blue-code", Code8>>, <<"group-2-alpha-code", SimpleOne(255)>>, <<"group-2-dist-code", Code5Dist>> >>
+         ELSE << <<"meta-present", <<0>> >>,
+                 <<"group-1-green-code", Code89(n)>>, <<"group-1-red-code", Code8>>, <<"group-1-blue-code", Code8>>, <<"group-1-alpha-code", Code8>>, <<"group-1-dist-code", Code5Dist>> >>)
+     \o << <<"tokens", tokbits>> >>
+Segs(c) == SegsG(c.w, H, c.cb, c.meta, 0, CeilDiv(c.w, 2), CeilDiv(c.w, 2) * CeilDiv(H, 2), Tokens(c).bits)
+Stream(c) == ToBytes(Cat([i \in 1..Len(Segs(c)) |-> Segs(c)[i][2]]))
+\* field map: name, first bit, width (the long code descriptions and the token area are cut to their first 24 bits:
+\* that is where their headers are)
+FieldMapOf(sg) ==
+  LET offs == FoldLeft(LAMBDA acc, i : Append(acc, acc[Len(acc)] + Len(sg[i][2])), <<0>>, [i \in 1..Len(sg) |-> i])
+  IN [i \in 1..Len(sg) |-> [name |-> sg[i][1], off |-> offs[i], width |-> IF Len(sg[i][2]) > 24 THEN 24 ELSE Len(sg[i][2])]]
+
+FieldMap(c) == FieldMapOf(Segs(c))
+\* hostile bases (C05): headers that declare a large picture and stop - no pixel data follows.  They are not valid
+\* streams (the reader rejects them); they are the starting points for bit-field faults whose cost must stay
+\* proportional to the input length plus the declared area.
+HostileBases == <<
+  [name |-> "256x256 cache 11 meta 128x128-tiles two groups no pixel data", sg |-> SegsG(256, 256, 11, TRUE, 5, 2, 4, <<>>)],
+  [name |-> "16383x16383 one group no pixel data", sg |-> SegsG(16383, 16383, 0, FALSE, 0, 1, 0, <<>>)],
+  [name |-> "4096x4096 meta 4x4-tiles meta image cut after 3 pixels", sg |-> SegsG(4096, 4096, 3, TRUE, 0, 1024, 3, <<>>)],
+  [name |-> "1000x1000 cache 1 meta 512x512-tiles two groups 8 tokens", sg |-> SegsG(1000, 1000, 1, TRUE, 7, 2, 4, Cat([i \in 1..8 |-> GreenBits(i * 20, 282) \o CodeMSB(i, 8) \o CodeMSB(2 * i, 8) \o CodeMSB(255, 8)]))] >>
 
 Configs == [seed : SEEDS, w : WIDTHS, cb : {0, 1, 3}, meta : BOOLEAN, copy : BOOLEAN]
 Init == cfg \in Configs /\ phase = "pick" /\ vbytes = <<>> /\ vpix = <<>>
@@ -105,6 +129,10 @@ Spec == Init /\ [][Next]_vars
 ReaderAccepts == phase \in {"pick", "written", "decoded"}
 \* group 2 really is exercised: in meta mode some pixel of a group-2 tile gets alpha 255 from the zero-bit code
 Emit == phase = "decoded" =>
-          PrintT(<<"CASE", ToJson([ts |-> <<cfg.seed, cfg.cb, IF cfg.meta THEN 1 ELSE 0, IF cfg.copy THEN 1 ELSE 0>>, w |-> cfg.w, h |-> H, ntok |-> Tokens(cfg).ntok, bytes |-> vbytes,
+          PrintT(<<"CASE", ToJson([ts |-> <<cfg.seed, cfg.cb, IF cfg.meta THEN 1 ELSE 0, IF cfg.copy THEN 1 ELSE 0>>, w |-> cfg.w, h |-> H, ntok |-> Tokens(cfg).ntok, fields |-> FieldMap(cfg), bytes |-> vbytes,
                                    pix |-> FoldLeft(LAMBDA acc, p : acc \o p, <<>>, vpix)])>>)
+EmitHostile == (phase = "pick" /\ cfg = CHOOSE c \in Configs : \A c2 \in Configs : c.seed <= c2.seed /\ c.w <= c2.w /\ c.cb <= c2.cb /\ (c.meta => c2.meta) /\ (c.copy => c2.copy)) =>
+  \A k \in 1..Len(HostileBases) :
+     PrintT(<<"HOSTILE", ToJson([name |-> HostileBases[k].name, fields |-> FieldMapOf(HostileBases[k].sg),
+                                 bytes |-> ToBytes(Cat([i \in 1..Len(HostileBases[k].sg) |-> HostileBases[k].sg[i][2]]))])>>)
 =============================================================================
